@@ -207,6 +207,18 @@ def check(ctx):
             ctx.instance('C15.R3', '%s %s' % (Model.qual(g), ast.unparse(n)), 'IndexError mapped' if ok else 'VIOLATION', node=n, file=BER)
             if not ok:
                 ctx.violation('C15.R3', BER, n, Model.qual(g), 'buffer index %s can raise IndexError to the caller of decode_length()/decode_full_length()' % ast.unparse(n))
+    # every conversion of a bounded slice of the buffer into a number is preceded, on its path, by a comparison of the number of octets present
+    for fn in ('skip_tag', 'decode_length'):
+        f = model.func(BER, fn)
+        for g, conv, sl, guarded, node in [r if len(r) == 5 else r + (None,) for r in excmap.slice_conversions(f, flow.param_names(f)[0])]:
+            if conv is None:
+                ctx.instance('C15.R3', '%s slice conversions' % Model.qual(g), 'undecided', 'too many paths', nontrivial=False, node=g, file=BER)
+                continue
+            ctx.instance('C15.R3', '%s converts %s' % (Model.qual(g), sl), 'octet count compared first' if guarded else 'VIOLATION', node=node, file=BER)
+            if not guarded:
+                ctx.violation('C15.R3', BER, node, Model.qual(g),
+                              '%s is converted to a number on a path that never compared the number of octets present (a Python slice near the end of the data is silently shorter): '
+                              'a prefix that ends inside the length octets yields a wrong length instead of "not yet known"' % sl, stmt='unchecked ' + sl)
     # skip_tag: a tag that ends exactly at the end of data is "not yet known": every returning path has established  returned offset < len(data)
     sps = sem.paths(skt, positional=True)
     ok = sps is not None
